@@ -687,6 +687,11 @@ class Expander:
                 v = self.eval(args[0], env)
                 if isinstance(v, (ListV, TupleV)):
                     return R.const(len(v.items))
+                # len() of a raw argument (a parameter still bound to itself, not yet squeezed / flattened / validated) is its
+                # first-axis length, which is the element count only for 1-D input: kept apart from .size.  For everything the
+                # code has already normalised (attributes, converted locals) the two name the same count.
+                if isinstance(args[0], ast.Name) and isinstance(v, R) and str(v) == args[0].id:
+                    return R.sym(f"len({v})")
                 return R.sym(f"size({v})")
             if fname in ("int",) and len(args) == 1:
                 return anf.fn_("int", self.need_r(self.eval(args[0], env)))
